@@ -126,7 +126,12 @@ def deep_has(s, kind):
         return deep_has(s[2], kind) or (s[3] is not None and deep_has(s[3], kind))
     if s[0] in ('while',):
         return False if kind in ('break', 'continue') else deep_has(s[2], kind)
-    if s[0] in ('for', 'dowhile', 'switch'):
+    if s[0] == 'switch':
+        # a `break` belongs to the switch, a `continue` to the loop around it
+        if kind == 'break':
+            return False
+        return any(deep_has(x, kind) for v, b in s[2] for x in b) or (s[3] is not None and any(deep_has(x, kind) for x in s[3]))
+    if s[0] in ('for', 'dowhile'):
         return False if kind in ('break', 'continue') else True
     return False
 
